@@ -986,6 +986,27 @@ def rule_R39_option_transpose(text, log):
         out = out[:rs] + new + pad + out[mm.end():]
 
 
+def rule_R40_debug_assert_eq(text, log):
+    """`debug_assert_eq!(A, B, ..)` -> `debug_assert!((A) == (B))`, `debug_assert_ne!` likewise with `!=` (what the macros test; the
+    message arguments are dropped). Verus reads `debug_assert!(c)` as "c must hold here" (a panic in debug builds otherwise)."""
+    out = text
+    rx = re.compile(r'\bdebug_assert_(eq|ne)\s*!\s*\(')
+    while True:
+        mask = code_mask(out)
+        mm = next((m for m in rx.finditer(out) if mask[m.start()]), None)
+        if not mm:
+            return out
+        op = mm.end() - 1
+        cl = match_brace(out, mask, op)
+        args = _split_params(out[op + 1:cl])
+        if len(args) < 2:
+            raise Unsupported('R40: debug_assert_%s with %d arguments' % (mm.group(1), len(args)))
+        new = 'debug_assert!((%s) %s (%s))' % (args[0].strip(), '==' if mm.group(1) == 'eq' else '!=', args[1].strip())
+        pad = '\n' * max(0, out[mm.start():cl + 1].count('\n') - new.count('\n'))
+        log.append(('R40', norm_ws(out[mm.start():cl + 1])[:120], norm_ws(new)[:160]))
+        out = out[:mm.start()] + new + pad + out[cl + 1:]
+
+
 def rule_R32_or_else(text, log):
     """`OPT.or_else(|| B)` -> `(match OPT { Some(vx_v) => Some(vx_v), None => B })` (definition of Option::or_else)"""
     out = text
@@ -1544,7 +1565,7 @@ class Unit(object):
         self.lost_aids = []
         self.gone_fns = []
         self.late_hints = False
-        self.rules = set(['R1', 'R2', 'ATTR', 'R4', 'R5', 'R6', 'R10', 'R11', 'R14', 'R15', 'R17', 'R22', 'R23', 'R25', 'R26', 'R27', 'R28', 'R29', 'R30', 'R33', 'R35', 'R36', 'R38', 'R39'])
+        self.rules = set(['R1', 'R2', 'ATTR', 'R4', 'R5', 'R6', 'R10', 'R11', 'R14', 'R15', 'R17', 'R22', 'R23', 'R25', 'R26', 'R27', 'R28', 'R29', 'R30', 'R33', 'R35', 'R36', 'R38', 'R39', 'R40'])
         self.unit_props = []
         self.lemmas = []
         self.tmpl_fns = []          # hand-written exec/proof fns in template (name, props)
@@ -1630,6 +1651,8 @@ class Unit(object):
                 text = rule_R35_option_filter(text, log)
             if 'R36' in self.rules:
                 text = rule_R36_range_for_each(text, log)
+            if 'R40' in self.rules:
+                text = rule_R40_debug_assert_eq(text, log)
             if 'R38' in self.rules:
                 text = rule_R38_bool_then(text, log)
             if 'R39' in self.rules:
@@ -2841,8 +2864,14 @@ def emit_fn_text(unit, rel, path, fn_id, text, line0, end_line, dlines, tmpl_whe
                 if sec[0] in ('before', 'after'):
                     sec[1] = (_rn(sec[1][0]), sec[1][1])
         unit.rule_log.append({'rule': 'AID', 'before': 'proof aids written for locals %s' % ', '.join(sorted(renames)), 'after': 'renamed to %s' % ', '.join(renames[k] for k in sorted(renames)), 'where': ctx})
+    drop_aids_ = getattr(unit, 'drop_aids', None) or ()
     for sec in sections:
         kind = sec[0]
+        if drop_aids_ and kind in ('loop', 'before', 'after', 'atstart', 'atend'):
+            key_ = ('loop%d' % sec[1]) if kind == 'loop' else ('start' if kind == 'atstart' else ('end' if kind == 'atend' else sec[1][0]))
+            if (fn_id, key_) in drop_aids_:
+                unit.lost_aids.append({'fn': fn_id, 'aid': 'aid `%s` left out (it no longer holds on this tree)' % key_})
+                continue
         if kind == 'loop':
             if loops is None:
                 loops = _loop_headers(body, bmask)
@@ -2863,6 +2892,12 @@ def emit_fn_text(unit, rel, path, fn_id, text, line0, end_line, dlines, tmpl_whe
                 unit.lost_aids.append({'fn': fn_id, 'aid': 'hint %s `%s`%s' % (kind, sec[1][0], (' #%d' % sec[1][1]) if sec[1][1] else '')})
                 continue
             pos_ = mm.start() if kind == 'before' else mm.end()
+            if kind == 'before':
+                # an anchor that has become the operand of `return` (a tail expression turned into an early exit): the aid
+                # goes before the `return` statement, not between the keyword and its operand
+                mr_ = re.search(r'\breturn\s*$', body[:pos_])
+                if mr_ and bmask[mr_.start()]:
+                    pos_ = mr_.start()
             if getattr(unit, 'late_hints', False) and _pure_hint(sec[2]):
                 # second attempt of the driver: a hint that only calls lemmas / asserts facts is placed before the last
                 # statement or tail expression of its block instead (tolerates reordered independent statements)
@@ -2875,7 +2910,7 @@ def emit_fn_text(unit, rel, path, fn_id, text, line0, end_line, dlines, tmpl_whe
     # an aid that uses a ghost variable declared by an aid that has no place any more is left out as well
     lost_names = set()
     for sec in sections:
-        if sec[0] in ('loop', 'before', 'after') and not any(ins[2] is sec[2] for ins in inserts):
+        if sec[0] in ('loop', 'before', 'after', 'atstart', 'atend') and not any(ins[2] is sec[2] for ins in inserts):
             for l_ in sec[2]:
                 lost_names.update(re.findall(r'\blet\s+ghost\s+(?:mut\s+)?([A-Za-z_]\w*)', l_))
     changed = bool(lost_names)
